@@ -1,8 +1,9 @@
 """C01 - inferred types admit every run-time value: the soundness guard rails.
 
 Decides: branch polarity tables, complement involution, "unknown means may"
-defaults, comparison table, overflow widening to Any.  Does NOT decide the
-soundness of the abstract interpreter's transfer functions.
+defaults, comparison table, overflow widening to Any, and that the stub
+optimiser absorbs union members only into their superclasses.  Does NOT decide
+the soundness of the abstract interpreter's transfer functions.
 """
 import ast
 import dis
